@@ -404,15 +404,13 @@ theorem crbLoop_good (d : Bytes) (conOff : Nat) : ∀ (cs : List Spec.Const) (a 
         rw [hDl]
         simp only [List.length_append, be32_length, padEven_length, List.length_cons, List.length_nil, hnb]
         omega
-      have hguard : ¬ (dcl + (4 + (((v.length + 1 : Nat) : Int) - 1).toNat) > d.length) := by
-        have : (((v.length + 1 : Nat) : Int) - 1).toNat = v.length := by omega
-        rw [this]
+      have hguard : ¬ (dcl + (4 + (nameBytes v).length) > d.length) := by
+        rw [hnb]
         omega
       obtain ⟨dcl', ih⟩ := crbLoop_good d conOff cs (a + 6) (off + D.length) (acc ++ [constName (.str v)])
-        (dcl + (4 + (((v.length + 1 : Nat) : Int) - 1).toNat))
+        (dcl + (4 + (nameBytes v).length))
         (fun x hx => h x (by simp [hx])) h3 hd3 hsz (by
-          have : (((v.length + 1 : Nat) : Int) - 1).toNat = v.length := by omega
-          rw [this]; omega)
+          rw [hnb]; omega)
       refine ⟨dcl', ?_⟩
       simp only [List.length_cons, crbLoop, crbStep]
       have n0 : ¬ ((1 : Int) = 0) := by omega
